@@ -2,9 +2,9 @@
 import json
 
 from productmd.rpms import Rpms
+from productmd.common import RPM_ARCHES
 from productmd.modules import Modules
 from productmd.extra_files import ExtraFiles, _relative_to
-from productmd.common import RPM_ARCHES
 
 PROPERTY = "C12"
 
@@ -339,9 +339,35 @@ class ExtraFilesIO(object):
         return self.parts[0] if len(self.parts) == 1 else "".join(self.parts)
 
 
+def rpms_add_symbolic_key(sym, with_dir, with_rpm, srpm_spelling):
+    """Rpms.add with a NEVRA whose parts are symbolic (every arch of the table, '.rpm' suffix, directory prefix): the RPM is filed under its
+    canonical key below the canonical key of its source package - the canonical text is what C13 proves _check_nevra returns"""
+    name = sym.str("name", 2, minlen=1, alphabet=["a-z", "0-9", "+"])
+    version = sym.str("version", 2, minlen=1, alphabet=["0-9", "."])
+    release = sym.str("release", 2, minlen=1, alphabet=["a-z", "0-9"])
+    arch = sym.one_of("arch", [a for a in RPM_ARCHES if a not in ("src", "nosrc")])
+    epoch = sym.int("epoch", 0, 99)
+    canonical = name + "-" + str(epoch) + ":" + version + "-" + release + "." + arch
+    text = canonical
+    if with_dir:
+        text = "Packages/" + name + "/" + text
+    if with_rpm:
+        text = text + ".rpm"
+    srpm_canon = "glibc-0:2.18-11.fc20.src"
+    srpm = {"canonical": srpm_canon, "rpm": srpm_canon + ".rpm", "dir": "SRPMS/" + srpm_canon + ".rpm"}[srpm_spelling]
+    rpms = Rpms()
+    path = sym.str("path", 3, minlen=1)
+    sym.assume(sym.not_(path.startswith("/")))
+    rpms.add("Server", "x86_64", text, path, None, "binary", srpm)
+    sym.cover("called")
+    sym.check("filed-exactly-there", rpms.rpms == {"Server": {"x86_64": {srpm_canon: {canonical: {"sigkey": None, "path": path, "category": "binary"}}}}})
+
+
 def jobs(tier, seed):
     big = tier == "thorough"
     out = []
+    for wd, wr, sp in ((False, True, "rpm"), (True, True, "canonical"), (False, False, "dir"), (True, False, "rpm")):
+        out.append({"harness": "rpms_add_symbolic_key", "params": {"with_dir": wd, "with_rpm": wr, "srpm_spelling": sp}})
     nev = range(len(NEVRAS))
     srp = range(len(SRPMS))
     for pre in ((0, 1, 2) if big else (0, 2)):
@@ -394,12 +420,13 @@ def jobs(tier, seed):
 
 
 META = {
-    "expected_covers": {"rpms_step": ["called", "accepted"], "module_uid": ["parsed"], "module_uid_history": ["parsed"], "module_uid_refused": ["called"],
+    "expected_covers": {"rpms_step": ["called", "accepted"], "rpms_add_symbolic_key": ["called"], "module_uid": ["parsed"], "module_uid_history": ["parsed"], "module_uid_refused": ["called"],
                         "modules_step": ["called", "accepted"], "extra_step": ["called", "accepted"],
                         "modules_shared_list": ["called"], "extra_shared_dict": ["called"], "relative_inside": ["called"], "relative_outside": ["called"], "dump_for_tree": ["dumped"]},
     "assumptions": [
         "one-step claims from pre-states reached by 0-2 real add calls; NEVRAs, module UIDs, variants are dict keys and come from a concrete pool "
         "(including invalid shapes); path, sigkey, category, koji tag, modulemd path, sizes, checksum values are symbolic (parsing of arbitrary NEVRA strings is C13)",
+        "rpms_add_symbolic_key: name / version / release of 1-2 characters, epoch 0..99, every binary arch of the table, with and without '.rpm' and a directory prefix",
         "Rpms.add with an empty path is neither required to be refused nor to be accepted (the documentation is silent): path has at least one character there",
         "sigkey over hexadecimal digits (documented as a key id), so that str.lower() is exact",
         "module UID parts are free of ':', '/' and newline (a '/' inside a stream would be read as a directory prefix)",
